@@ -188,7 +188,14 @@ func extractTarDirectory(dirPath, dirName string, r io.Reader, buf []byte, prese
 			// This is a known limitation and will not be addressed.
 			var target string
 			if target, err = ensureLinkPath(dirPath, dirName, filePath, header.Linkname); err == nil {
-				err = os.Link(target, filePath)
+				// link to the location that was validated: a relative target is
+				// relative to the directory of the link, not to the process's
+				// current directory
+				oldname := filepath.Clean(target)
+				if !filepath.IsAbs(target) {
+					oldname = filepath.Join(filepath.Dir(filePath), target)
+				}
+				err = os.Link(oldname, filePath)
 			}
 		case tar.TypeSymlink:
 			var target string
